@@ -153,6 +153,20 @@ PROPS["C15"] = dict(
     trusted=COMMON_TRUST, excluded=["timer accuracy"],
 )
 
+PROPS["C16"] = dict(
+    units=["reconnect"],
+    title="Reconnect retries only connection failures, a bounded number of times",
+    level_text="Deductive proof (Verus) on the real hand-written future ReconnectFuture::poll (pin projection erased), ReconnectService::call, ReconnectConfig::should_reconnect, ReconnectPolicy::delay_for_attempt and the "
+               "published-state functions: an invariant of the future between polls (Calling: calls == attempt+1; Sleeping: the pending sleep is exactly policy.delay_for_attempt(attempt), the stored error is the last inner "
+               "error and the predicate accepted it; attempt <= max) is preserved by every poll; hence at most max_attempts+1 inner calls; success is the last inner outcome and publishes Connected; non-reconnectable errors "
+               "are returned at once unchanged; giving up only beyond max_attempts with the last error; a retry only after the completed policy delay; encode/decode of the published state are inverse.",
+    level_note="Loop termination inside one poll is not proved; attempt < u32::MAX assumed (explicit assume, listed); per-task view of the published state cell; interval functions are C14; readiness of the retrying clone is a C20 known finding.",
+    technique="contract-based deductive verification (Verus): state-machine invariant on the extracted poll function",
+    design_ref="§6 C16",
+    assumptions=["attempt counter stays below u32::MAX", "pin projection is field access (R13)", "tokio Sleep is Ready only after its duration"],
+    trusted=COMMON_TRUST, excluded=["mark_connected's attempt-counter reset and last_connected stamp"],
+)
+
 NOT_APPLICABLE = {
     "C12": "not built: hedge's body is a tokio::select! loop over spawned tasks; needs the select!/spawn rewrite R17 (DESIGN §7); nothing weaker is claimed in its place",
 }
